@@ -89,3 +89,15 @@ Example ex_cat_view_re : cat_view_recomputed [0; 2] [99; 97; 98; 97] = ([98; 99]
 Example ex_session : session (cat_answer [99; 97; 98; 97]) [RView [0; 2]; RFull; RView [3]]
                      = [([97; 98; 99], [2; 1]); ([97; 98; 99], [2; 0; 1; 0]); ([97; 98; 99], [0])].
 Proof. vm_compute. reflexivity. Qed.
+
+(* round 5: a 3-d cube whose spectral axis has a scale of 2e-10 (matrix in x, y, z order; numpy axis 0 = the spectral one) *)
+From Coq Require Import QArith.
+From GV Require Import gen.Gen_axiscorr C04.Lemmas4.
+Definition cube : list (list Q) := [[1 # 2; 0; 0; 10]; [0; 1 # 2; 0; 20]; [0; 0; 2 # 10000000000; 5 # 10000000]; [0; 0; 0; 1]]%Q.
+Example cube_rect : affine_rect cube. Proof. exists 4%nat. repeat constructor. Qed.
+Example cube_dep : affine_dep cube 0 = [0%Z]. Proof. vm_compute. reflexivity. Qed.
+Example cube_rowdep : map (affine_rowdep cube 0) [0; 1; 2]%nat = [true; false; false]. Proof. vm_compute. reflexivity. Qed.
+Example cube_rowdep_tolerance : map (affine_rowdep_with isclose_zero_entry cube 0) [0; 1; 2]%nat = [false; false; false]. Proof. vm_compute. reflexivity. Qed.
+Example sheared_dep : affine_dep [[1; 1 # 1000000000000; 0]; [0; 1; 0]; [0; 0; 1]]%Q 0 = [0%Z; 1%Z]. Proof. vm_compute. reflexivity. Qed.
+Eval vm_compute in snd (world_calculate2 Q (affine_world cube 0) [6; 4; 5]%Z (affine_dep cube 0) (affine_rowdep cube 0)
+                          [VSlice (Slice (Some 2%Z) (Some 5%Z) None)]) [1; 0; 0]%Z.
